@@ -235,6 +235,11 @@ def run_path(c, decisions, contracts, world, cfg) -> PathResult:
         else:
             pr.obligations.append(("frame:no-global-state", "discharged", {"backend": "executor"}))
         if outcome == "return":
+            for gname, gtype, gwit, _ in c.ghost_outs:
+                w = gwit(it, ctx)
+                if w is None:
+                    raise OutOfSubset(f"ghost result {gname}: witness not found on this path")
+                env.set(gname, w)
             clauses.eval_lets(it, c.post_lets, env)
             for cl in c.returns_:
                 try:
@@ -284,6 +289,9 @@ def run_path(c, decisions, contracts, world, cfg) -> PathResult:
                 continue
             items = r if isinstance(r, list) else [(label, r)]
             for lab, goal in items:
+                if goal is None:
+                    pr.obligations.append((f"check:{lab}", "unknown", {"backend": "executor", "reason": "the check could not be formulated on this path (e.g. witness not found after a refactoring)"}))
+                    continue
                 st, det = _check_goal(it, goal, lab, inputs)
                 pr.obligations.append((f"check:{lab}", st, det))
     except OutOfSubset as e:
